@@ -130,6 +130,10 @@ func guardIndex() (byField map[string]guardRow) {
 // sharedBase reports whether the object whose field is accessed may be visible to other goroutines: its address
 // does not come from an allocation made by this invocation.
 func sharedBase(p *Prog, fn *ssa.Function, v ssa.Value) bool {
+	return sharedBaseD(p, fn, v, ipDepth)
+}
+
+func sharedBaseD(p *Prog, fn *ssa.Function, v ssa.Value, depth int) bool {
 	la := p.Locks()
 	seen := map[ssa.Value]bool{}
 	var walk func(v ssa.Value, d int) bool
@@ -212,8 +216,22 @@ func sharedBase(p *Prog, fn *ssa.Function, v ssa.Value) bool {
 			return walk(x.X, d+1)
 		case *ssa.Convert, *ssa.ChangeType:
 			return true
+		case *ssa.Parameter:
+			// a helper working on an object that every caller has just allocated (extracted part of a constructor)
+			if depth > 0 {
+				args, sites, closed := p.argsForParam(x)
+				if closed && len(args) > 0 {
+					for i, a := range args {
+						if _, isGo := sites[i].(*ssa.Go); isGo || sharedBaseD(p, sites[i].Parent(), a, depth-1) {
+							return true
+						}
+					}
+					return false
+				}
+			}
+			return true
 		default:
-			return true // parameters, free variables, globals, lookups, type assertions
+			return true // free variables, globals, lookups, type assertions
 		}
 	}
 	return walk(v, 0)
@@ -786,7 +804,7 @@ func runC2(p *Prog, o *obls, la *lockAnalysis) {
 					fv := fieldOfAddr(fa)
 					found := false
 					for _, f := range row.fields {
-						if fv != nil && fv.Name() == f {
+						if fv != nil && cFieldName(fv) == f {
 							found = true
 						}
 					}
